@@ -68,6 +68,24 @@ impl Default for PhysicalPlanner {
     }
 }
 
+/// Size (bytes of Parquet files) above which a table counts as "big" for the shared-prescan skip
+/// and the filtered streaming scan. Verification hook: under `--cfg qe_verif` the environment
+/// variable `QE_VERIF_BIG_TABLE_BYTES` overrides it, so the /verif harness can reach the
+/// large-table paths with small generated files. Without the cfg this is the constant itself.
+#[inline]
+fn big_table_bytes(default: u64) -> u64 {
+    #[cfg(qe_verif)]
+    {
+        if let Some(v) = std::env::var("QE_VERIF_BIG_TABLE_BYTES")
+            .ok()
+            .and_then(|v| v.parse::<u64>().ok())
+        {
+            return v;
+        }
+    }
+    default
+}
+
 impl PhysicalPlanner {
     /// Create a new physical planner without memory management (uses regular operators)
     pub fn new() -> Self {
@@ -511,7 +529,7 @@ impl PhysicalPlanner {
                     ),
                     None => provider.statistics().map(|s| s.total_byte_size),
                 };
-                if total_bytes.is_some_and(|total| total > PRESCAN_MAX_BYTES) {
+                if total_bytes.is_some_and(|total| total > big_table_bytes(PRESCAN_MAX_BYTES)) {
                     return None;
                 }
                 let proj = Self::union_projection(projections);
@@ -1120,7 +1138,7 @@ impl PhysicalPlanner {
                                 .filter_map(|f| std::fs::metadata(f).ok())
                                 .map(|m| m.len())
                                 .sum::<u64>()
-                                > 400_000_000
+                                > big_table_bytes(400_000_000)
                         })
                         .unwrap_or(false);
                     if !big {
